@@ -416,6 +416,67 @@ def tampered_prelim(rng, res):
         shutil.rmtree(root, ignore_errors=True)
 
 
+def other_steps_prelim(rng, res):
+    """(vii) The key-argument forms that do not tell the key id up front (gpg) look for the preliminary record by step
+    name. Only records of *that* step count: not those of a step whose name starts with it ('st' / 'st-image'), extends
+    it by a dot ('st' / 'st.x86'), or matches it as a glob pattern ('s*' / 'st'). A stop for a step that was never
+    started must fail and change nothing; with both in flight, each stop finishes its own."""
+    KEY_FORM[0] = "signer"
+    STOP_KW.clear()
+    if not W.gpg_available():
+        return
+    import in_toto.runlib as rl
+    from in_toto.models.metadata import Metadata
+    k = W.gpg_key(rng.choice(["no_sub", "no_sub2"]))
+    mine, other = rng.choice([("st", "st-image"), ("st", "st.x86"), ("s*", "st"), ("st", "st2"), ("s[tu]", "st"), ("st.x86", "st")])
+    both = rng.random() < 0.4
+    root = tempfile.mkdtemp(prefix="verif-c12o-")
+    cwd = os.getcwd()
+    try:
+        os.chdir(root)
+        open("m0", "w").write("material\n")
+        kw = {"gpg_keyid": k.gpg_id, "gpg_home": k.gpg_home}
+        with quiet():
+            rl.in_toto_record_start(other, ["m0"], **kw)
+            if both:
+                rl.in_toto_record_start(mine, ["m0"], **kw)
+        open("p0", "w").write("product\n")
+        before = sorted(os.listdir(root))
+        try:
+            with quiet():
+                rl.in_toto_record_stop(mine, ["p0"], **kw)
+            outcome = "ok"
+        except Exception as e:  # pylint: disable=broad-except
+            outcome = W.exc_class(e)
+        after = sorted(os.listdir(root))
+        mats = [["m0", sha_of("material\n")]]
+        own = {"materials": mats, "signer": k.keyid, "intact": True}
+        mm = core.driver().call({"op": "record_stop", "key": k.keyid, "prelim": own if both else None, "given": extras_for_model({}),
+                                 "products": [["p0", sha_of("product\n")]], "prelims": [own] if both else []})
+        m = "ok" if "ok" in mm else mm["err"]
+        agreed = outcome == m
+        case = {"op": "other_steps_prelim", "stop_of": mine, "in_flight": [other] + ([mine] if both else []), "key": "gpg"}
+        res.case(dict(case, outcome=outcome), True, agreed, sample_cap=2)
+        res.count("other_steps_prelim_" + ("both" if both else "other_only"))
+        if not agreed:
+            res.fail("disagree", case, {"op": "recordStopGlob", "impl": outcome, "model": mm})
+        kid = k.keyid[:8]
+        if not both:
+            if outcome == "ok" or after != before:
+                res.fail("oracle", case, {"why": "stop of a step that was never started %s (only the preliminary record of step %r exists)" % (
+                    "succeeded" if outcome == "ok" else "changed the directory", other), "before": before, "after": after})
+        else:
+            ok_files = os.path.exists("%s.%s.link" % (mine, kid)) and not os.path.exists(".%s.%s.link-unfinished" % (mine, kid)) \
+                and os.path.exists(".%s.%s.link-unfinished" % (other, kid))
+            name_ok = ok_files and Metadata.load("%s.%s.link" % (mine, kid)).get_payload().name == mine
+            if outcome != "ok" or not name_ok:
+                res.fail("oracle", case, {"why": "with the recordings of %r and %r both in flight, stop of %r did not finish its own recording and "
+                                                 "leave the other alone" % (mine, other, mine), "outcome": outcome, "before": before, "after": after})
+    finally:
+        os.chdir(cwd)
+        shutil.rmtree(root, ignore_errors=True)
+
+
 def failing_stop_then_retry(rng, res):
     """(vi) A stop that fails *while the products are being recorded* (two products collapse to one name under the
     left-strip prefixes; a product path that cannot be read), with and without a base path, then - in the same process,
@@ -660,6 +721,8 @@ def shard(seed, idx, n, tier):
         interleaved_random(rng, res)
     for _ in range(2 * n):
         failing_stop_then_retry(rng, res)
+    for _ in range(n):
+        other_steps_prelim(rng, res)
     return res
 
 
